@@ -19,7 +19,8 @@ fn run_list(specs: &[ExchangeSpec], full: &[u8], offsets_out: &mut Vec<usize>, s
         let (obs, term) = match run_exchange(spec, None, &full[off..], s).map_err(|e| format!("exchange {}: {}", i, e))? {
             Outcome::Done(o, t) => (o, t),
             Outcome::Premature(_) => return Err("harness: premature attempt in C01".into()),
-            Outcome::FollowedWithoutInheritedExpect => return Err("harness: outcome of a followed flow on a fresh one".into()),
+            // the exchange left the specified course where the statements are open: the list ends here, under every schedule alike
+            Outcome::NotCompared(_) => break,
         };
         if check_truth {
             check_against_truth(spec, &obs, is_last, full.len() - off).map_err(|e| format!("exchange {}: {}", i, e))?;
@@ -67,7 +68,7 @@ fn run_list(specs: &[ExchangeSpec], full: &[u8], offsets_out: &mut Vec<usize>, s
                         }
                         Outcome::Premature(_) => return Err("harness: premature attempt in C01".into()),
                         // the library made the followed request without the inherited Expect: the head it wrote is all there is to compare
-                        Outcome::FollowedWithoutInheritedExpect => {}
+                        Outcome::NotCompared(_) => {}
                     }
                 }
             }
